@@ -104,6 +104,12 @@ pub enum Edit {
     /// insert a terminator (`unreachable`; `return` in a function without results) into a parsed or
     /// built body: everything behind it in that sequence becomes dead code, the body stays well typed
     InsertTerminator { func: u32, seq: u32, pos: u32, what: u8 },
+    /// the same kind of type-neutral insertion, but made directly on the public `InstrSeq::instrs` vector
+    /// obtained through `LocalFunction::block_mut` (not through the builder): `n` x (`i32.const`, `drop`)
+    InsertViaBlockMut { func: u32, seq: u32, pos: u32, n: u32 },
+    /// a whole-function `ir::dfs_pre_order_mut` pass with a `VisitorMut` (what instrumentation passes do):
+    /// what 0 appends (`i32.const 0`, `drop`) to every instruction sequence, what 1 rewrites every `i32.const k` to `k ^ 1`
+    VisitMutPass { func: u32, what: u8 },
     RenameFunc { pick: u32, name: Option<String> },
     RenameModule { name: Option<String> },
     RenameLocal { pick: u32, name: Option<String> },
@@ -172,6 +178,8 @@ impl Op {
                 Edit::ClearStart => "edit_clear_start",
                 Edit::InsertNeutral { .. } => "edit_insert_neutral",
                 Edit::InsertTerminator { .. } => "edit_insert_terminator",
+                Edit::InsertViaBlockMut { .. } => "edit_insert_via_block_mut",
+                Edit::VisitMutPass { .. } => "edit_visitor_mut_pass",
                 Edit::RenameFunc { .. } => "edit_rename_func",
                 Edit::RenameModule { .. } => "edit_rename_module",
                 Edit::RenameLocal { .. } => "edit_rename_local",
